@@ -320,6 +320,7 @@ pub struct World {
     pub idle_self_cancel: bool,
     pub live_trace: bool,
     pub matrix: bool,
+    pub prop: String,
 }
 
 thread_local! {
@@ -388,6 +389,7 @@ impl World {
             allow_update_disabled: false,
             idle_self_cancel: false,
             matrix: false,
+            prop: String::new(),
             live_trace: std::env::var_os("CVERIF_LIVE_TRACE").is_some(),
         }
     }
